@@ -576,8 +576,16 @@ impl<const B: Word> Repr<B> {
         } else {
             match f32::encode(man24, self.exponent as i16) {
                 Exact(v) => Exact(v),
-                // this branch only happens when the result underflows
-                Inexact(v, _) => Inexact(v, Rounding::NoOp),
+                // this branch only happens when the result underflows or overflows:
+                // tell whether encode rounded away from zero or towards zero
+                Inexact(v, e) => Inexact(
+                    v,
+                    match (sign, e) {
+                        (Sign::Positive, Sign::Positive) => Rounding::AddOne,
+                        (Sign::Negative, Sign::Negative) => Rounding::SubOne,
+                        _ => Rounding::NoOp,
+                    },
+                ),
             }
         }
     }
@@ -634,8 +642,16 @@ impl<const B: Word> Repr<B> {
         } else {
             match f64::encode(man53, self.exponent as i16) {
                 Exact(v) => Exact(v),
-                // this branch only happens when the result underflows
-                Inexact(v, _) => Inexact(v, Rounding::NoOp),
+                // this branch only happens when the result underflows or overflows:
+                // tell whether encode rounded away from zero or towards zero
+                Inexact(v, e) => Inexact(
+                    v,
+                    match (sign, e) {
+                        (Sign::Positive, Sign::Positive) => Rounding::AddOne,
+                        (Sign::Negative, Sign::Negative) => Rounding::SubOne,
+                        _ => Rounding::NoOp,
+                    },
+                ),
             }
         }
     }
